@@ -571,3 +571,90 @@ Proof.
   intros c k v l H0 H1. unfold cache_add.
   destruct (N.ltb_spec 0 l); [|lia]. destruct (N.ltb_spec l (len v)); [|lia]. reflexivity.
 Qed.
+
+(* ---- read-your-write: Get after a successful Add (added last phase) ------------- *)
+Lemma frame_of_from_skip pre : forall i fs k,
+  ~ In k (all_keys pre) -> frame_of_from i (pre ++ fs) k = frame_of_from (i + len pre) fs k.
+Proof.
+  induction pre as [|f pre IH]; intros i fs k Hn; cbn [app].
+  - f_equal. unfold len. cbn. lia.
+  - cbn [frame_of_from]. unfold all_keys in Hn. cbn in Hn. fold (all_keys pre) in Hn.
+    rewrite in_app_iff in Hn.
+    destruct (ahas k f) eqn:E; [apply ahas_in in E; tauto|].
+    rewrite IH by tauto. f_equal. rewrite len_cons. lia.
+Qed.
+
+Lemma frame_of_from_in_pre pre : forall i fs k,
+  In k (all_keys pre) ->
+  exists j, frame_of_from i (pre ++ fs) k = Some j /\ i <= j < i + len pre
+            /\ nth_error (pre ++ fs) (N.to_nat (j - i)) = nth_error pre (N.to_nat (j - i)).
+Proof.
+  induction pre as [|f pre IH]; intros i fs k Hin; [destruct Hin|].
+  cbn [app frame_of_from]. unfold all_keys in Hin. cbn in Hin. fold (all_keys pre) in Hin.
+  rewrite in_app_iff in Hin. rewrite len_cons.
+  destruct (ahas k f) eqn:E.
+  - exists i. split; [reflexivity|]. split; [lia|]. rewrite N.sub_diag. reflexivity.
+  - destruct Hin as [Hin|Hin]; [apply ahas_in in Hin; congruence|].
+    destruct (IH (i + 1) fs k Hin) as [j [Hj [Hr Hn]]].
+    exists j. split; [exact Hj|]. split; [lia|].
+    replace (N.to_nat (j - i)) with (S (N.to_nat (j - (i + 1)))) by lia.
+    cbn [nth_error]. exact Hn.
+Qed.
+
+Theorem cache_add_get_lemma : forall c k v l c',
+  CInv c -> cache_add c k v l = Ok c' ->
+  cache_get c' k = Ok v
+  /\ (forall k2, k2 <> k -> cache_get c' k2 = cache_get c k2)
+  /\ cache_get c k = Err EGen.
+Proof.
+  intros c k v l c' [Huse Hcap Hnd Hne Hlim Hc32]. unfold cache_add.
+  destruct ((0 <? l) && (l <? len v)) eqn:Elim; [discriminate|].
+  destruct (frame_of c k) as [i|] eqn:Efo; [destruct (i =? top_index c); discriminate|].
+  set (sz := if 0 <? len v then check_capacity (c_size c) (c_use c) v else 0).
+  destruct ((0 <? len v) && (sz =? 0)) eqn:Esz; [discriminate|].
+  destruct (frames_last _ Hne) as [pre [top Hfs]].
+  destruct (c_frames c) as [|f0 fr] eqn:Efr; [contradiction|]. rewrite <- Efr in *. clear Efr f0 fr.
+  intros H. inversion H; subst c'; clear H.
+  split; [|split].
+  - unfold cache_get, frame_of. cbn [c_frames].
+    pose proof Efo as Efo'. unfold frame_of in Efo'. apply frame_of_from_none in Efo'.
+    rewrite (top_index_app c pre top Hfs). rewrite Hfs, update_nth_app.
+    rewrite Hfs, all_keys_app in Efo'. rewrite in_app_iff in Efo'.
+    rewrite frame_of_from_skip by tauto. cbn [frame_of_from].
+    assert (Hh : ahas k (aset k v top) = true).
+    { apply ahas_in. eapply alookup_in. apply alookup_aset_same. }
+    rewrite Hh. rewrite frame_get_mid by (rewrite N.add_0_l; apply to_nat_len).
+    rewrite alookup_aset_same. reflexivity.
+  - intros k2 Hk2. unfold cache_get, frame_of. cbn [c_frames].
+    rewrite (top_index_app c pre top Hfs). rewrite Hfs, update_nth_app.
+    destruct (in_dec (list_eq_dec N.eq_dec) k2 (all_keys pre)) as [Hin|Hout].
+    + (* found in a lower frame: same index, same frame *)
+      destruct (frame_of_from_in_pre pre 0 [aset k v top] k2 Hin) as [j [Hj [_ Hn]]].
+      destruct (frame_of_from_in_pre pre 0 [top] k2 Hin) as [j' [Hj' [_ Hn']]].
+      assert (j' = j).
+      { destruct (frame_of_from_in_pre pre 0 [] k2 Hin) as [j0 [Hj0 _]].
+        clear Hn Hn'. revert Hj Hj'.
+        assert (G : forall fs, frame_of_from 0 (pre ++ fs) k2 = frame_of_from 0 pre k2).
+        { intros fs. clear -Hin. generalize 0. induction pre as [|f pre IH]; intros i; [destruct Hin|].
+          cbn [app frame_of_from]. destruct (ahas k2 f) eqn:E; [reflexivity|].
+          apply IH. unfold all_keys in Hin. cbn in Hin. fold (all_keys pre) in Hin.
+          rewrite in_app_iff in Hin. destruct Hin as [Hin|Hin]; [apply ahas_in in Hin; congruence|exact Hin]. }
+        rewrite !G. congruence. }
+      subst j'. rewrite Hj, Hj'. f_equal. unfold frame_get.
+      rewrite N.sub_0_r in Hn, Hn'. rewrite Hn, Hn'. reflexivity.
+    + rewrite !frame_of_from_skip by exact Hout. cbn [frame_of_from].
+      assert (Hah : ahas k2 (aset k v top) = ahas k2 top).
+      { destruct (ahas k2 top) eqn:E.
+        - apply ahas_in. apply ahas_in in E. destruct (alookup k2 top) eqn:EL.
+          + eapply alookup_in. rewrite alookup_aset_other by exact Hk2. exact EL.
+          + apply alookup_none in EL. contradiction.
+        - destruct (ahas k2 (aset k v top)) eqn:E2; [|reflexivity].
+          apply ahas_in in E2. destruct (alookup k2 (aset k v top)) eqn:EL.
+          + rewrite alookup_aset_other in EL by exact Hk2. apply alookup_in in EL.
+            apply ahas_in in EL. congruence.
+          + apply alookup_none in EL. contradiction. }
+      rewrite Hah. destruct (ahas k2 top); [|reflexivity].
+      rewrite !frame_get_mid by (rewrite N.add_0_l; apply to_nat_len).
+      rewrite alookup_aset_other by exact Hk2. reflexivity.
+  - unfold cache_get. rewrite Efo. reflexivity.
+Qed.
